@@ -10,7 +10,7 @@ use serde_json::json;
 
 pub const KINDS: [Kind; 5] = [Kind::Rsi, Kind::Fast, Kind::Slow, Kind::Mfi, Kind::Er];
 
-pub const RULE: &str = "RSI/FAST/SLOW/ER on scalar price streams (band regimes incl. long monotone runs pinning outputs at 0/100, one-tick ranges, nearly flat, alternating extremes; some mixed-sign streams) and RSI/FAST/SLOW/ER/MFI on valid OHLCV bars (6 styles, volume over 6 decades incl. 0) plus bar streams with injected invalid bars (FAST judged only while its whole window satisfied low<=close<=high), periods 1..=512; every output at every step whose reference denominator is non-zero must lie in [0,100] (ER [0,1]) within 1e-9 (+100*tau(t)*c for MFI, judged when c<=1000), NaN counts as out of range. Non-trivial: stream longer than the period with >= 1 judged step; distinct by hash of (indicator, params, stream head).";
+pub const RULE: &str = "RSI/FAST/SLOW/ER on scalar price streams (one in 16 just below overflow: prices in [1e306, 8e307]; band regimes incl. long monotone runs pinning outputs at 0/100, one-tick ranges, nearly flat, alternating extremes; some mixed-sign streams) and RSI/FAST/SLOW/ER/MFI on valid OHLCV bars (6 styles, volume over 6 decades incl. 0) plus bar streams with injected invalid bars (FAST judged only while its whole window satisfied low<=close<=high), periods 1..=512; every output at every step whose reference denominator is non-zero must lie in [0,100] (ER [0,1]) within 1e-9 (+100*tau(t)*c for MFI, judged when c<=1000), NaN counts as out of range. Non-trivial: stream longer than the period with >= 1 judged step; distinct by hash of (indicator, params, stream head).";
 
 fn range_of(kind: Kind) -> (f64, f64) {
     if kind == Kind::Er {
@@ -145,6 +145,10 @@ fn period(rng: &mut Rng) -> usize {
 }
 
 fn variant(kind: Kind, rng: &mut Rng) -> Params {
+    // one draw in twelve is the documented default configuration (which the wrapper builds through Default::default())
+    if rng.below(12) == 0 {
+        return kind.default_params();
+    }
     let mut p = Params::new1(kind, period(rng));
     if kind == Kind::Slow {
         p.p[1] = period(rng).min(64);
@@ -160,7 +164,15 @@ fn run_scalar(ctx: &Ctx) -> Report {
     par_run(jobs, ctx.threads, move |idx, rep| {
         let mut rng = Rng::derive(seed, 0xC07, *idx as u64);
         let len = rng.range(40, maxlen);
-        let xs: Vec<f64> = match idx % 4 {
+        let xs: Vec<f64> = match if idx % 16 == 9 { 99 } else { idx % 4 } {
+            99 => {
+                // finite prices just below overflow: in [1e306, 8e307] every difference and every sum of two
+                // averages is representable, but 100 * x is not — a ratio that is scaled before it is divided
+                // leaves [0, 100] for inf
+                rep.count("scalar.streams_near_f64_max");
+                let len = len.min(600);
+                (0..len).map(|i| if i % 11 == 4 { 1e306 } else { 1e306 + 7.9e307 * rng.f() }).collect()
+            }
             0 => {
                 // long monotone run (pins RSI / FAST at 0 or 100), then reversal
                 let m = rng.log_uniform(1e-3, 1e5);
@@ -215,7 +227,18 @@ fn run_bars(ctx: &Ctx) -> Report {
             }
             rep.count("bar.streams_in_tiny_or_huge_units");
         }
-        let inject_invalid = idx % 5 == 4;
+        if idx % 16 == 11 {
+            // prices in [1e306, 5e307] with volumes 1e-6..1e-3: typical prices, money flows and their window
+            // sums stay representable
+            for b in bars.iter_mut() {
+                let u = [rng.f(), rng.f(), rng.f(), rng.f()];
+                let (lo_p, hi_p) = (1e306 + 2e307 * u[0], 2.1e307 + 2.9e307 * u[1]);
+                *b = Bar { o: lo_p + (hi_p - lo_p) * u[2], h: hi_p, l: lo_p, c: lo_p + (hi_p - lo_p) * u[3], v: 1e-6 + 1e-3 * u[2] };
+            }
+            bars.truncate(600);
+            rep.count("bar.streams_near_f64_max");
+        }
+        let inject_invalid = idx % 5 == 4 && idx % 16 != 11;
         if inject_invalid {
             for b in bars.iter_mut() {
                 if rng.chance(0.01) {
@@ -268,7 +291,7 @@ pub fn run(ctx: &Ctx) -> Report {
         rep.merge(run_bars(ctx));
     }
     if ctx.only.is_none() {
-        for key in ["outputs_pinned_at_a_bound", "period_1", "bar.streams_with_invalid_bars", "skipped.fast_window_has_invalid_bar"] {
+        for key in ["outputs_pinned_at_a_bound", "period_1", "bar.streams_with_invalid_bars", "skipped.fast_window_has_invalid_bar", "scalar.streams_near_f64_max", "bar.streams_near_f64_max"] {
             if rep.counters.get(key).copied().unwrap_or(0) == 0 {
                 rep.inconclusive.push(format!("coverage floor missed: {} = 0", key));
             }
